@@ -220,7 +220,7 @@ Lemma prim_index v : existsb (fun k => val_eq k v) ks = true ->
   prim "call:index" [PList (map PV ks); PV v] = Ok (PV (VInt (Z.of_nat (index_of v ks)))).
 Proof. intros H. cbn. rewrite (find_index_keys v ks H). reflexivity. Qed.
 
-Lemma prim_mul_list l n : prim "binop:mul" [PList l; PV (VInt n)] = Ok (PList (concat (repeat l (Z.to_nat n)))).
+Lemma prim_mul_list l n : prim "binop:mul" [PList l; PInt n] = Ok (PList (concat (repeat l (Z.to_nat n)))).
 Proof. reflexivity. Qed.
 
 Lemma prim_sort_key l clo : prim "method:sort:key" [PList l; clo] = sort_prim akey l clo false.
@@ -299,4 +299,141 @@ Proof.
     + exists loc'. split; [exact EL|]. split; [exact HR|].
       intros x N1 N2 N3. rewrite (ST x N1 N2 N3). unfold loc2, loc1. rewrite !lookup_update_other by congruence. reflexivity.
 Qed.
+
+Definition outer_body : list stmt :=
+  [SAssign (TName "outrow")
+     (XBin OAdd (XList [XName "field1"])
+        (XBin OMul (XList [XConst PNone]) (XBin OSub (XLen (XName "columns")) (XConst (PInt 1)))));
+   SFor "row" (XName "group") inner_body;
+   SExpr (XMethod (TName "pivoted") "append" [XPrim "builtins.tuple" [XName "outrow"]])].
+
+Variable cols : list pv.            (* the new header (computed by the untranslated part); only its length is used *)
+
+Definition made (kg : value * list row) : row := build_row ks oc c2 (length cols) (fst kg) (snd kg).
+
+Lemma outer_loop : forall (groups : list (value * list row)) (acc : list row) loc flds,
+  Forall (fun kg => Forall row_ok (snd kg)) groups -> fixed loc ->
+  lookup "columns" loc = Some (PTuple cols) -> lookup "pivoted" loc = Some (PList (map row_pv acc)) ->
+  exists loc',
+    for_unpack_loop call_ref prim outer_body ["field1"; "group"] {| locals := loc; fields := flds |}
+      (map group_pv groups) = Ok (Next {| locals := loc'; fields := flds |}) /\
+    lookup "pivoted" loc' = Some (PList (map row_pv (acc ++ map made groups))) /\
+    lookup "columns" loc' = Some (PTuple cols).
+Proof.
+  induction groups as [|[k g] groups IH]; intros acc loc flds Hok Hfix Hcols Hpiv.
+  - exists loc. split; [reflexivity|]. cbn [map]. rewrite app_nil_r. split; assumption.
+  - inversion Hok as [|? ? Hg Hok']; subst. cbn [snd] in Hg.
+    destruct Hfix as [Hk [Hcol [Hn Ho]]].
+    cbn [map for_unpack_loop group_pv fst snd unpack_names write locals fields bind].
+    set (loc1 := update "group" (PList (map row_pv g)) (update "field1" (PV k) loc)).
+    assert (Hf1 : lookup "field1" loc1 = Some (PV k)).
+    { unfold loc1. rewrite lookup_update_neq by reflexivity. apply lookup_update_eq. }
+    assert (Hg1 : lookup "group" loc1 = Some (PList (map row_pv g))) by apply lookup_update_eq.
+    assert (Hc1 : lookup "columns" loc1 = Some (PTuple cols)) by (unfold loc1; rewrite !lookup_update_neq by reflexivity; exact Hcols).
+    assert (Hp1 : lookup "pivoted" loc1 = Some (PList (map row_pv acc))) by (unfold loc1; rewrite !lookup_update_neq by reflexivity; exact Hpiv).
+    assert (Hfix1 : fixed loc1).
+    { unfold fixed, loc1. rewrite !lookup_update_neq by reflexivity. repeat split; assumption. }
+    set (out0 := k :: repeat VNull (length cols - 1)).
+    assert (E1 : PyMini.exec call_ref prim {| locals := loc1; fields := flds |}
+                   (SAssign (TName "outrow")
+                      (XBin OAdd (XList [XName "field1"])
+                         (XBin OMul (XList [XConst PNone]) (XBin OSub (XLen (XName "columns")) (XConst (PInt 1)))))) =
+                 Ok (Next {| locals := update "outrow" (PList (map PV out0)) loc1; fields := flds |})).
+    { repeat (progress (cbn [PyMini.exec PyMini.eval bind read write locals fields PInt binop1 binop_builtin bop_name
+                             String.append];
+                        rewrite ?Hf1, ?Hc1, ?prim_mul_list)).
+      unfold out0. cbn [map app]. rewrite concat_repeat_single, map_repeat'.
+      replace (Z.to_nat (Z.of_nat (length cols) - 1)) with (length cols - 1)%nat by lia. reflexivity. }
+    unfold outer_body at 1. rewrite exec_block_cons. fold loc1. rewrite E1. cbn [bind].
+    set (loc2 := update "outrow" (PList (map PV out0)) loc1).
+    assert (Hfix2 : fixed loc2).
+    { destruct Hfix1 as [A [B [C D]]]. unfold fixed, loc2. rewrite !lookup_update_neq by reflexivity. repeat split; assumption. }
+    assert (Hg2 : lookup "group" loc2 = Some (PList (map row_pv g))) by (unfold loc2; rewrite lookup_update_neq by reflexivity; exact Hg1).
+    rewrite exec_block_cons.
+    rewrite (exec_for call_ref prim "row" _ _ _ {| locals := loc2; fields := flds |} (map row_pv g)
+               (eval_name call_ref prim {| locals := loc2; fields := flds |} "group" _ Hg2)).
+    fold inner_body.
+    destruct (inner_loop g out0 loc2 flds Hg Hfix2 (lookup_update_eq _ _ _)) as [loc3 [E2 [Ho3 St3]]].
+    rewrite E2. cbn [bind].
+    assert (Hp3 : lookup "pivoted" loc3 = Some (PList (map row_pv acc))).
+    { rewrite St3 by discriminate. unfold loc2. rewrite lookup_update_neq by reflexivity. exact Hp1. }
+    rewrite exec_block_cons.
+    repeat (progress (cbn [PyMini.exec PyMini.eval bind read write locals fields method_call
+                           String.eqb Ascii.eqb Bool.eqb exec_block];
+                      rewrite ?Ho3, ?Hp3, ?prim_tuple)).
+    destruct (IH (acc ++ [made (k, g)])
+                (update "pivoted" (PList (map row_pv acc ++ [PTuple (map PV (fold_left step_row g out0))])) loc3) flds Hok')
+      as [loc' [EL [HP HC]]].
+    + destruct Hfix2 as [A [B [C D]]]. unfold fixed. rewrite !lookup_update_neq by reflexivity.
+      rewrite !St3 by discriminate. repeat split; assumption.
+    + rewrite lookup_update_neq by reflexivity. rewrite St3 by discriminate.
+      unfold loc2. rewrite lookup_update_neq by reflexivity. exact Hc1.
+    + rewrite lookup_update_eq, map_app. reflexivity.
+    + exists loc'. split; [exact EL|]. split; [|exact HC]. rewrite HP. cbn [map]. rewrite <- app_assoc. reflexivity.
+Qed.
+
+(* the translated filling part of the PIVOT BY branch = the rows of Model/Pivot.v's pivot *)
+Theorem pivot_fill_src : forall (c1 : nat) (rows : list row),
+  Forall (fun r => (c1 < length r)%nat) rows -> Forall row_ok rows ->
+  call_fun call_ref prim exec_pivot_fill
+    [PList (map row_pv rows); idx_pv c1; PTuple cols; PList (map PV ks); idx_pv c2; PInt (Z.of_nat (length oc)); PRef ko] =
+  Ok (PTuple [PTuple cols;
+              PList (map row_pv (map made (groupby c1 None (isort (on (cell c1) val_le) rows))))]).
+Proof.
+  intros c1 rows Hc1 Hok. unfold call_fun, exec_pivot_fill. cbn [f_params f_body f_gen bind_params].
+  fold inner_body. fold outer_body.
+  set (sorted := isort (on (cell c1) val_le) rows).
+  assert (Hperm : Permutation rows sorted) by apply isort_perm.
+  assert (Hc1s : Forall (fun r => (c1 < length r)%nat) sorted) by (apply (Permutation_Forall Hperm); exact Hc1).
+  assert (Hoks : Forall row_ok sorted) by (apply (Permutation_Forall Hperm); exact Hok).
+  rewrite exec_block_cons.
+  cbn [PyMini.exec PyMini.eval bind write locals fields update String.eqb Ascii.eqb Bool.eqb].
+  rewrite exec_block_cons.
+  repeat (progress (cbn [PyMini.exec PyMini.eval bind read write locals fields lookup update do_call method_call app
+                         String.eqb Ascii.eqb Bool.eqb String.append partial_clo];
+                    rewrite ?Hnig)).
+  change (PTuple [PRef 1; idx_pv c1]) with (partial_clo 1 [idx_pv c1]).
+  rewrite prim_sort_key, (sort_tuples_src call_ref c1 rows Hc1). fold sorted.
+  cbn [bind write locals fields update String.eqb Ascii.eqb Bool.eqb].
+  set (loc1 := [("rows", PList (map row_pv sorted)); ("col1", idx_pv c1); ("columns", PTuple cols);
+                ("keys", PList (map PV ks)); ("col2", idx_pv c2); ("nother", PInt (Z.of_nat (length oc)));
+                ("other", PRef ko); ("pivoted", PList [])]).
+  set (s1 := {| locals := loc1; fields := [] |}).
+  rewrite exec_block_cons.
+  rewrite (exec_for_unpack call_ref prim _ _ _ s1 s1 (map group_pv (groupby c1 None sorted))).
+  2:{ rewrite (eval_prim2 call_ref prim "itertools.groupby:key" _ _ s1 s1 s1 (PList (map row_pv sorted))
+                 (itemgetter_clo (PInt (Z.of_nat c1))) (eval_name call_ref prim s1 "rows" _ eq_refl)).
+      - rewrite prim_groupby, (groupby_rows_src call_ref c1 sorted Hc1s). reflexivity.
+      - rewrite (eval_prim1 call_ref prim "operator.itemgetter" _ s1 s1 _ (eval_name call_ref prim s1 "col1" _ eq_refl)).
+        unfold idx_pv. rewrite prim_itemgetter. reflexivity. }
+  destruct (outer_loop (groupby c1 None sorted) [] loc1 []) as [loc' [EL [HP HC]]].
+  - rewrite groupby_runs. apply runs_rows_forall. exact Hoks.
+  - repeat split; reflexivity.
+  - reflexivity.
+  - reflexivity.
+  - unfold s1. rewrite EL. cbn [bind]. rewrite exec_block_cons.
+    repeat (progress (cbn [PyMini.exec PyMini.eval bind read locals fields]; rewrite ?HP, ?HC)).
+    reflexivity.
+Qed.
 End Fill.
+
+(* with the key list and the remaining columns of Model/Pivot.v: the rows of [pivot] *)
+From Verif Require Import Proofs.PivotProofs.
+
+Corollary pivot_src : forall (call_ref : nat -> list pv -> pv) (ncols c1 c2 ko : nat) (rows : list row) (cols : list pv),
+  (forall args, call_ref 1%nat args = partial_clo 1 args) ->
+  (forall r : row, call_ref ko [row_pv r] = PTuple (map PV (other (other_cols ncols c1 c2) r))) ->
+  Forall (fun r => (c1 < length r)%nat /\ (c2 < length r)%nat) rows ->
+  length cols = length (pivot_header (pivot_keys c2 rows) (other_cols ncols c1 c2)) ->
+  call_fun call_ref (prims_exec call_ref exec_nig_single exec_nig_multi 1) exec_pivot_fill
+    [PList (map row_pv rows); idx_pv c1; PTuple cols; PList (map PV (pivot_keys c2 rows)); idx_pv c2;
+     PInt (Z.of_nat (length (other_cols ncols c1 c2))); PRef ko] =
+  Ok (PTuple [PTuple cols; PList (map row_pv (snd (pivot ncols c1 c2 rows)))]).
+Proof.
+  intros call_ref ncols c1 c2 ko rows cols Hnig Hother Hw Hlen.
+  rewrite (pivot_fill_src call_ref Hnig (pivot_keys c2 rows) (other_cols ncols c1 c2) c2 ko Hother cols c1 rows).
+  - unfold pivot. cbn [snd]. unfold made. rewrite Hlen. reflexivity.
+  - apply Forall_forall. intros r Hr. rewrite Forall_forall in Hw. apply (Hw r Hr).
+  - apply Forall_forall. intros r Hr. rewrite Forall_forall in Hw. split; [apply (Hw r Hr)|].
+    apply pivot_keys_complete. exact Hr.
+Qed.
